@@ -31,7 +31,7 @@ from coba.environments import filters as ef
 from coba.pipes import Pipes
 from coba.exceptions import CobaExit
 
-from vf.lib.c04_pipelines import (SOURCES, FILTERS, FILTERS_ONE, FILTERS_STATEFUL, build_source, make_filter, compatible,
+from vf.lib.c04_pipelines import (SOURCES, SRC_BIG, FILTERS, FILTERS_ONE, FILTERS_STATEFUL, build_source, make_filter, compatible,
                                   cinter, cparams, flavour, snapshot, src_mem)
 
 warnings.simplefilter('ignore')
@@ -43,11 +43,15 @@ A_FAC = ['full', 'p1', 'p3', 'params', 'pickle', 'mat', 'cache', 'chunk', 'save'
 A_FAC7 = ['full', 'p1', 'params', 'pickle', 'mat', 'cache', 'save']
 A_FAC5 = ['full', 'p1', 'pickle', 'mat', 'cache']          # the state-changing operations (deepest level; params is looked up after the last one)
 A_RAW3 = ['full', 'p1', 'pickle']
+A_BIG = ['full', 'p1', 'p30', 'mat', 'cache', 'chunk']      # the 40-interaction source: operations that re-serve stored objects
+A_BIG_RAW = ['full', 'p1', 'p30', 'pickle']
+A_HUGE = ['full', 'p1', 'save']                              # the 1001-interaction source (save writes batches of 1000)
+PARTS = {'p1': 1, 'p3': 3, 'p30': 30}
 A_FAN = ['full@0', 'full@1', 'p1@0', 'p1@1', 'params@0', 'params@1']
-READS = {'full', 'p1', 'p3', 'mat', 'save'}           # operations that pull interactions through the pipeline
-KIND = {'p1': 'part', 'p3': 'part'}                   # op -> kind used in finding keys
+READS = {'full', 'p1', 'p3', 'p30', 'mat', 'save'}           # operations that pull interactions through the pipeline
+KIND = {'p1': 'part', 'p3': 'part', 'p30': 'part'}                   # op -> kind used in finding keys
 
-SRC_ALL = list(SOURCES)
+SRC_ALL = [s for s in SOURCES if s not in SRC_BIG]
 SRC_MAIN = ['lam', 'lam1h', 'lams', 'lamsp', 'lamna', 'supXY', 'supLS', 'csvF', 'arffL', 'resO', 'resF']
 SRC_FEW = ['lam', 'resO', 'lamsp', 'arffL']           # one simulated/dense, one logged, one sparse, one lazy-row/categorical source
 FAN_PREFIX = [[], ['Cache'], ['Densify'], ['Logged'], ['Take'], ['Batch']]
@@ -132,7 +136,10 @@ class C04(Check):
             'alphabet; source x 2 filters (25x25 filter classes, one parameterisation each): quick 4 sources, facade, all histories <=2 over {full,p1,params,'
             'pickle,mat,cache,save}; thorough 11 sources, raw+facade, <=3 state-changing (<=4 for the facade pipelines of 4 sources) / <=2 complete; thorough '
             'source x 3 stateful filters (4 sources x 7^3, facade) <=3 / <=2; siblings (bare sources + 5 one-filter prefixes): all histories <=3 | <=4 over '
-            '{full,p1,params} x {sibling 0,1}. '
+            '{full,p1,params} x {sibling 0,1}; a 40-interaction x 4-action LambdaSimulation (larger than Cache\'s slice of 25 and than any 128-entry '
+            'memo of lazily evaluated reward/feedback functions, which the canonical form calls on every action in a fixed order) x <=1 filter (25 classes), '
+            'raw {full,p1,p30,pickle} and facade {full,p1,p30,mat,cache,chunk}: all histories <=3 | <=4, thorough also Grounded next to every filter <=3; a '
+            '1001-interaction source (save batches of 1000) over {full,p1,save} <=2 | <=3. '
             'A history is non-trivial when the reference read is non-empty and the history pulls interactions through the pipeline at least twice')
     ASSUMPTIONS = [
         'params before the first completed full read of the object at hand are not constrained (environments may learn params lazily); afterwards they must equal the params a fresh pipeline reports after its first read',
@@ -183,6 +190,17 @@ class C04(Check):
         for s in SRC_FEW:
             for pre in FAN_PREFIX[1:]:
                 if compatible(s, pre): yield {'src': s, 'chain': pre, 'facade': True, 'fan': True}, [(A_FAN, d1, None)]
+        # sources larger than the size bounds visible in the code (Cache slices of 25, a 128-entry memo, save batches of 1000)
+        for facade in (False, True):
+            ops = A_BIG if facade else A_BIG_RAW
+            yield {'src': 'lam40', 'chain': [], 'facade': facade}, [(ops, d1, None)]
+            for f in FILTERS_ONE:
+                if compatible('lam40', [f]): yield {'src': 'lam40', 'chain': [f], 'facade': facade}, [(ops, d1, None)]
+        yield {'src': 'lam1k', 'chain': [], 'facade': True}, [(A_HUGE, d1 - 1, None)]
+        if not quick:   # the one filter whose interactions carry a stateful lazily evaluated function, next to every other filter
+            for g in FILTERS_ONE:
+                for ch in (['Grounded', g], [g, 'Grounded']):
+                    if g != 'Grounded' and compatible('lam40', ch): yield {'src': 'lam40', 'chain': ch, 'facade': True}, [(A_BIG, 3, None)]
         if quick:       # chains of two: every ordered pair of filter classes (one parameterisation each) on four sources
             for s in SRC_FEW:
                 for f in FILTERS_ONE:
@@ -267,8 +285,8 @@ class C04(Check):
                 raise Fail(f'read raises {type(e).__name__}', repr(e), i)
             if got != ref: raise Fail(diff_mode(got, ref, ref), f'read {len(got)} interactions {got!r:.300}, a fresh pipeline yields {len(ref)}: {ref!r:.300}', i)
             st.read_done[j] = True
-        elif base in ('p1', 'p3'):
-            k = int(base[1])
+        elif base in PARTS:
+            k = PARTS[base]
             it = None
             try:
                 it = iter(env.read())
@@ -388,7 +406,7 @@ class C04(Check):
             base, sib = op_split(hist[j])
             suffix = f'@{sib}' if '@' in hist[j] else ''
             last = j == len(hist) - 1
-            for simpler in {'p3': ('full', 'p1'), 'p1': ('full',), 'mat': ('full',) if last else (), 'save': ('full',) if last else ()}.get(base, ()):
+            for simpler in {'p3': ('full', 'p1'), 'p30': ('full', 'p1'), 'p1': ('full',), 'mat': ('full',) if last else (), 'save': ('full',) if last else ()}.get(base, ()):
                 h2 = hist[:j] + [simpler + suffix] + hist[j + 1:]
                 f2 = self.fails_like(pipe, h2, fam)
                 if f2 is not None:
